@@ -312,7 +312,10 @@ def _checkout(  # noqa: C901
 
     progress_callback.set_size(sum(diff.stats.values()))
     link = Link(links, callback=progress_callback)
-    for change in diff.deleted:
+    # NOTE: the directory itself goes last, so that every file in it is removed
+    # (or refused) on the strength of its own `in_cache` check rather than of
+    # the directory object's.
+    for change in sorted(diff.deleted, key=lambda change: change.old.key == ROOT):
         entry_path = fs.join(path, *change.old.key) if change.old.key != ROOT else path
         _remove(entry_path, fs, change.old.in_cache, force=force, prompt=prompt)
 
